@@ -3561,11 +3561,10 @@ impl Transition {
                     if name.len() == e.len() {
                         // Full match
                         return true;
-                    } else if let Some(c) = name.chars().nth(e.len()) {
-                        // partial match, token needs to be terminated with "."
-                        if c == '.' {
-                            return true;
-                        }
+                    } else if name.as_bytes()[e.len()] == b'.' {
+                        // partial match, token needs to be terminated with ".".
+                        // (e.len() is a byte length, so the next token separator has to be looked up by byte offset)
+                        return true;
                     }
                 }
             }
